@@ -281,7 +281,9 @@ def check_forwarding(ctx, fwd):
     """(extension round 2) attribute forwarding `state.<name>` -> `rbm_am.<name>` (NeuralStateBase.__getattr__ / WaveFunctionBase.__getattr__)
     as the runner observed it on real states, against QV.Frame.resolveMethod / rbmMethods (driver op c14.resolve); the class the model gives
     a forwarded name against the operation table of this harness (whose evaluator / gibbs classes ARE executed, see check_api); and the
-    compute_normalization alias. Auxiliary: the property constrains what the operations do, not how names are resolved."""
+    compute_normalization alias. The property constrains what the operations do, not how names are resolved: resolution, the set of forwarded
+    names and the alias are RECORDED (ctx.info, audit 3 B11); only `forwarding/class` - the tie of the model's classes to the operation table
+    this harness executes - stays auxiliary."""
     if not fwd or ctx.driver is None:
         ctx.count("forwarding probe: not available" if not fwd else "forwarding probe: no driver")
         return
@@ -293,8 +295,9 @@ def check_forwarding(ctx, fwd):
         case = {"forwarding": kind, "own": own, "names": names}
         impl = [[r[1], r[3]] for r in rows]
         model = [[n, o] for n, (o, _c) in zip(names, m["resolved"])]
-        ctx.point(f"attribute resolution on a {kind} state (own / forwarded to rbm_am / AttributeError)", "aux", impl, model, case, exact=True,
-                  sig=f"forwarding/resolution/{kind}", theorem="C14_forwarded_read_only / C14_forwarded_table")
+        # audit 3 (B11): HOW a name is resolved (own method / __getattr__ forwarding / AttributeError - an exception type) is not in C14's
+        # text, which constrains what the operations DO: recorded only (explicit delegating methods on the state are as good)
+        ctx.info(f"forwarding/resolution/{kind}", impl, model)
         for r in rows:
             ctx.count(f"forwarding: {r[3]}")
         # the model's class of every forwarded name against this harness's operation table
@@ -312,11 +315,10 @@ def check_forwarding(ctx, fwd):
                   sig=f"forwarding/class/{kind}", theorem="C14_forwarded_read_only")
         tab = sorted(n for n, _c in m["table"])
         seen = sorted(r[1] for r in rows if r[3] == "forwarded")
-        ctx.point(f"forwarded names observed on a {kind} state vs the model's rbmMethods", "aux", seen, tab, case, exact=True,
-                  sig=f"forwarding/table/{kind}", theorem="C14_forwarded_table")
-    ctx.point("compute_normalization(space) == normalization(space) == forwarded partition(space), bit for bit", "aux",
-              [list(a) for a in fwd["alias"]], [[k, True] for k in ("pos", "cplx", "dens")], {"forwarding": "alias"}, exact=True,
-              sig="forwarding/compute_normalization", theorem="C14_forwarded_read_only")
+        # audit 3 (B11): the SET of forwarded names (a new public helper on the RBM, a method that became the state's own) is recorded only
+        ctx.info(f"forwarding/table/{kind}", seen, tab)
+    # audit 3 (B11): that the alias is computed by the very same route (bit for bit) is not in the property text: recorded only
+    ctx.info("forwarding/compute_normalization", [list(a) for a in fwd["alias"]], [[k, True] for k in ("pos", "cplx", "dens")])
 
 THM_DET = "C14_seeded_determinism / C14_frame_rng"
 THM_RO = "C14_read_only_step / C14_read_only"
